@@ -74,6 +74,8 @@ func (g *genImporter) Import(path string) (*types.Package, error) {
 // typeCheckGo checks every package under outDir. importPrefix is what the
 // generator was told to prepend to generated import paths (package_prefix).
 // Returns a description of the first problem, or "".
+const altFrugalImport = "vendored.example/third_party/frugal"
+
 func typeCheckGo(outDir, importPrefix string) (string, error) {
 	exports, err := loadExports()
 	if err != nil {
@@ -81,6 +83,10 @@ func typeCheckGo(outDir, importPrefix string) (string, error) {
 	}
 	fset := token.NewFileSet()
 	lookup := func(path string) (io.ReadCloser, error) {
+		if path == altFrugalImport {
+			// -gen go:frugal_import=<path>: the runtime under another import path
+			path = "github.com/Workiva/frugal/lib/go"
+		}
 		f, ok := exports[path]
 		if !ok || f == "" {
 			return nil, fmt.Errorf("no export data for %q", path)
